@@ -116,6 +116,43 @@ Fixpoint drop_all (t : tables) (objs : list sock) : tables * list msg :=
   | o :: r => let '(t1, m1) := drop_sock t o in let '(t2, m2) := drop_all t1 r in (t2, m1 ++ m2)
   end.
 
+(* ---- what the host's stack does with a message from the network -------------------------
+   Host::receive_from_network / Tcp::receive_from_network / Udp::receive_from_network at
+   the level of table look-ups.  Since /repo 2342d63 Sim::step keeps calling it for a
+   CRASHED host (all objects dropped, tables empty), with no code of the host running. *)
+Inductive inbound :=
+| ISyn (port : N) (s : syn)          (* Segment::Syn to a local port *)
+| IData (p : pair)                   (* Segment::Data for the stream (local port, remote) *)
+| IFin (p : pair)
+| IRst (p : pair)
+| IUdp (port : N).                   (* a datagram to a local port *)
+Inductive reply :=
+| RQueued            (* SYN queued at a listener *)
+| RRefused           (* no listener: the Syn (and its ack sender) is dropped => ConnectionRefused *)
+| RBuffered          (* data / FIN handed to the stream's reorder buffer *)
+| RReset             (* no such stream: Err(Segment::Rst) is sent back *)
+| RRemoved           (* a RST removed the entry (or there was none) *)
+| RDelivered         (* datagram queued at the socket *)
+| RDropped.          (* no socket bound to the port *)
+
+Fixpoint has_bind (port : N) (l : list (N * list syn)) : bool :=
+  match l with [] => false | (q, _) :: r => (q =? port) || has_bind port r end.
+Fixpoint push_syn_at (port : N) (s : syn) (l : list (N * list syn)) : list (N * list syn) :=
+  match l with
+  | [] => []
+  | (q, syns) :: r => if q =? port then (q, syns ++ [s]) :: r else (q, syns) :: push_syn_at port s r
+  end.
+
+Definition receive (t : tables) (m : inbound) : tables * reply :=
+  match m with
+  | ISyn port s =>
+      if has_bind port (tcp t) then (set_tcp t (push_syn_at port s (tcp t)), RQueued) else (t, RRefused)
+  | IData p | IFin p =>
+      match lookup_stream p (streams t) with Some _ => (t, RBuffered) | None => (t, RReset) end
+  | IRst p => (set_streams t (remove_stream p (streams t)), RRemoved)
+  | IUdp port => if existsb (N.eqb port) (udp t) then (t, RDelivered) else (t, RDropped)
+  end.
+
 (* ---- plain-data encoding for the correspondence check ------------------------------ *)
 Definition enc_pair (p : pair) : list N := [lport p; rhost p; rport p].
 Definition enc_msg (m : msg) : list N :=
